@@ -3,10 +3,11 @@
 package main
 
 import (
-	"math/rand/v2"
 	"fmt"
+	"math/rand/v2"
 	"sort"
 	"strings"
+	"sync"
 	"time"
 
 	am "github.com/pancsta/asyncmachine-go/pkg/machine"
@@ -60,6 +61,13 @@ func (eng) Cases(seed uint64, tier string) []core.CaseDesc {
 	}
 	for i := 0; i < 8; i++ {
 		cs = append(cs, core.CaseDesc{ID: fmt.Sprintf("enum/n2/%d", i), Kind: "enum", Seed: uint64(i)})
+	}
+	nf := 150
+	if tier == "thorough" {
+		nf = 60000
+	}
+	for i := 0; i < nf; i++ {
+		cs = append(cs, mk(fmt.Sprintf("follow/%05d", i), "follow", seed*6000003+uint64(i)))
 	}
 	nrd := 150
 	if tier == "thorough" {
@@ -249,6 +257,8 @@ func (eng) Run(c core.CaseDesc, tier string) *core.CaseResult {
 	r := gen.NewRand(c.Seed, 5)
 	rr := &randT{r}
 	switch c.Kind {
+	case "follow":
+		runFollow(res, c, r)
 	case "neg":
 		s := genSetup(rr)
 		hist := gen.RandHistory(r, s.spec.Names, []string{"add", "remove", "set", "toggle", "add"}, 3+r.IntN(8))
@@ -353,6 +363,79 @@ func (eng) Run(c core.CaseDesc, tier string) *core.CaseResult {
 		}
 	}
 	return res
+}
+
+// runFollow: the caller is still alone and the machine idle, but the
+// handlers of its transitions queue follow-up mutations of their own (which
+// run in the same drain, with whatever outcome). The returned Result has to
+// tell the truth about the caller's own transition.
+func runFollow(res *core.CaseResult, c core.CaseDesc, r *rand.Rand) {
+	spec := gen.RandSchema(r, gen.SchemaOpts{MinStates: 3, MaxStates: 5,
+		PRequire: r.Float64() * 0.25, PAdd: r.Float64() * 0.2, PRemove: r.Float64() * 0.3, PMulti: r.Float64() * 0.3})
+	mc, _ := seq.New(spec, seq.MachOpts{})
+	m := mc.M
+	defer m.Dispose()
+	names := rec.AllHandlerNames(gen.Sorted(spec.Names))
+	veto := map[string]bool{}
+	for _, n := range names {
+		if rec.IsNegotiation(n) && r.IntN(6) == 0 {
+			veto[n] = true
+		}
+	}
+	var mx sync.Mutex
+	hr := rand.New(rand.NewPCG(c.Seed, 77))
+	budget := 30
+	_, _ = rec.BindMaps(m, mc.HLog, 0, names, func(hc *rec.HCall, e *am.Event) bool {
+		if !rec.IsNegotiation(hc.Name) && !e.IsCheck {
+			mx.Lock()
+			do := budget > 0 && hr.IntN(3) == 0
+			var op gen.Op
+			if do {
+				budget--
+				op = gen.RandOp(hr, spec.Names, []string{"add", "remove", "set"})
+				op.NoArgs = false
+			}
+			mx.Unlock()
+			if do {
+				rec.Apply(e.Machine(), op)
+			}
+		}
+		return !veto[hc.Name]
+	})
+	hist := gen.RandHistory(r, spec.Names, []string{"add", "remove", "set", "add"}, 6+r.IntN(10))
+	for i, op := range hist {
+		op.NoArgs = false // every mutation carries its uid
+		rs, uid := rec.Apply(m, op)
+		res.Evals++
+		own := mc.Tr.FindUid(uid)
+		ctx := func() any {
+			var vl []string
+			for k := range veto {
+				vl = append(vl, k)
+			}
+			sort.Strings(vl)
+			return map[string]any{"schema": spec.String(), "veto": vl, "history": fmt.Sprint(hist[:i+1]), "result": rec.ResStr(rs), "own": own}
+		}
+		if rs != am.Executed && rs != am.Canceled {
+			res.Violate("C03/queued-on-idle", "a mutation on an idle machine returned "+rec.ResStr(rs), ctx())
+			return
+		}
+		if own == nil || own.Broken {
+			continue
+		}
+		res.Key(c.Seed, i, own.Accepted)
+		if rs == am.Executed && !own.Accepted {
+			res.Violate("C03/executed-but-not-accepted/handler-queued-followups", fmt.Sprintf(
+				"%s returned Executed but its own transition was not accepted (its handlers queued follow-up mutations, which ran in the same drain)", op), ctx())
+			return
+		}
+		if rs == am.Canceled && own.Accepted {
+			res.Violate("C03/canceled-but-accepted/handler-queued-followups", fmt.Sprintf(
+				"%s returned Canceled but its own transition was accepted and applied (its handlers queued follow-up mutations, which ran in the same drain)", op), ctx())
+			return
+		}
+	}
+	res.Count("followups_queued_by_handlers", int64(30-budget))
 }
 
 func runEarly(res *core.CaseResult, c core.CaseDesc, rr *randT) {
